@@ -261,6 +261,10 @@ func (c *Ctx) uniqueCallArg(fn *ssa.Function, idx int) ssa.Value {
 				}
 				if cc != nil {
 					if g := staticCallee(cc); g != nil {
+						if forwardTarget(f) == g {
+							// a literal that only forwards to g reads as g itself: g keeps its own frame
+							callSiteCache.escaped[g] = true
+						}
 						callSiteCache.sites[g] = append(callSiteCache.sites[g], cc)
 						// the function value itself must not also be passed as an argument
 						for _, a := range cc.Args {
